@@ -2,7 +2,7 @@
 # Derive the generic twin's proof files from the string twin's: the proof scripts are the same, only the twin, its
 # model and its leaves differ.  Run after editing DeepCache.lean / DeepTrace.lean.
 cd /verif/lean
-sed -e 's/namespace DeepCache/namespace DeepCacheOf/; s/end DeepCache/end DeepCacheOf/; s/twinMap/twinMapOf/g; s/Model\.Cache\./Model.CacheOf./g; s/Gen\.item_/Gen.itemOf_/g; s/Gen\.expiration\b/Gen.expirationOf/g; s/xsync_map\.go/xsync_mapof.go/g; s/import CacheVerif.Model.Cache$/import CacheVerif.Model.CacheOf/; s/`Model.Cache`/`Model.CacheOf`/' CacheVerif/Proofs/DeepCache.lean > CacheVerif/Proofs/DeepCacheOf.lean
+sed -e 's/namespace DeepCache/namespace DeepCacheOf/; s/end DeepCache/end DeepCacheOf/; s/twinMapHanded/twinMapOfHanded/g; s/twinMap\b/twinMapOf/g; s/Model\.Cache\./Model.CacheOf./g; s/Gen\.item_/Gen.itemOf_/g; s/Gen\.expiration\b/Gen.expirationOf/g; s/xsync_map\.go/xsync_mapof.go/g; s/import CacheVerif.Model.Cache$/import CacheVerif.Model.CacheOf/; s/`Model.Cache`/`Model.CacheOf`/' CacheVerif/Proofs/DeepCache.lean > CacheVerif/Proofs/DeepCacheOf.lean
 # the trace theorems of the generic twin: the model M5 is written with the leaves of xsync_map.go, so the generic leaves
 # are rewritten to them (the two sets of machine-translated leaves are equal: ofx, ofxw, ofe)
 sed -e 's/namespace DeepTrace/namespace DeepTraceOf/; s/\bAgrees\b/AgreesOf/g; s/end DeepTrace/end DeepTraceOf/; s/twinMapTr/twinMapOfTr/g; s/twinMap\b/twinMapOf/g; s/xsync_map\.go/xsync_mapof.go/g; s/deep_simp, \*\]/deep_simp, DeepTraceOf.ofx, DeepTraceOf.ofxw, DeepTraceOf.ofe, *]/; s/simp \[deep_simp, twinMapOfTr, twinMapOf, hide/simp [deep_simp, DeepTraceOf.ofx, DeepTraceOf.ofxw, DeepTraceOf.ofe, twinMapOfTr, twinMapOf, hide/g; s/dummy_never/dummy_never/' CacheVerif/Proofs/DeepTrace.lean > CacheVerif/Proofs/DeepTraceOf.lean
